@@ -4,7 +4,7 @@
    both build profiles [ck]; allocation models = bytes requested from the global allocator). *)
 From LzVerif Require Import Base.Bytes Arith.MemUsage Arith.MemUsageProofs.
 
-(* ---- encoder: LZMAOptions::get_memory_usage (after repo-patches/01) ------------------------- *)
+(* ---- encoder: LZMAOptions::get_memory_usage (after /repo 813fe55, 2f495eb) ------------------ *)
 
 (* no u32 overflow anywhere in the estimator over the documented option range: both build
    profiles return the same value, never Panic *)
@@ -59,7 +59,7 @@ Theorem C17_dec_estimate_by_props_spec : forall ck d props, 0 <= d <= DICT_SIZE_
 Proof. exact dec_estimate_by_props_spec. Qed.
 Print Assumptions C17_dec_estimate_by_props_spec.
 
-(* ---- decoder: lzma2_get_memory_usage (after repo-patches/02): EVERY u32 argument ------------- *)
+(* ---- decoder: lzma2_get_memory_usage (after /repo 009e680, 525e235): EVERY u32 argument ------ *)
 Theorem C17_dec2_estimate_no_overflow : forall d, 0 <= d < U32 ->
   exists e, (forall ck, dec2_estimate ck d = Ok e) /\ 0 <= e < U32 /\
             exists ds, lzma2_dict_size_gen false false d = Ok ds /\ e = 104 + ds / 1024 /\
